@@ -375,9 +375,46 @@ def gen_multi_diagnostic(rng, builtin_path):
     if rng.chance(1, 3):
         program.contributions.append(("bad0", "def bad0 : Int64 = \"text\"", False, {"H2"}))
         program.contributions.append(("bad1", "def bad1 : Int64 = ()", False, {"H2"}))
+    if rng.chance(1, 2):
+        # inference regions that close with several unconstrained metavariables
+        for u in range(rng.range(1, 2)):
+            names = " ".join(f"m{u}{letter}" for letter in "abcd"[:rng.range(2, 4)])
+            program.contributions.append((f"unc{u}", f"let unc{u} = {{ fn {names} => ret () }}", False, set()))
     program.body = "! (process/exit) 0"
     program.note = f"{gaps} coverage gaps over {types} data types"
     return program
+
+
+_ROLES = [
+    ("exit", "Thk (Int64 -> SystemOS)"),
+    ("random_int", "Thk (Thk (Int64 -> SystemOS) -> SystemOS)"),
+    ("int64_add", "Thk (Int64 -> Int64 -> SystemOS)"),
+    ("int64_sub", "Thk (Int64 -> Int64 -> SystemOS)"),
+    ("int64_mul", "Thk (Int64 -> Int64 -> SystemOS)"),
+    ("write_int", "Thk (Int64 -> Thk SystemOS -> SystemOS)"),
+]
+
+
+def gen_bad_builtin_signature(rng):
+    """A hand-written Builtin signature with several independent mistakes (roles attached to two
+    entries, classifiers of the wrong shape): the checker's signature report lists them all."""
+    roles = list(_ROLES)
+    rng.shuffle(roles)
+    entries = []
+    for role, classifier in roles[:rng.range(2, 4)]:
+        copies = 2 if rng.chance(2, 3) else 1
+        for copy in range(copies):
+            wrong = classifier if copies == 2 or rng.chance(1, 2) else "Thk SystemOS"
+            entries.append((f"{role}_{copy}", role, wrong))
+    rng.shuffle(entries)
+    names = "; ".join(f"/{name}" for name, _r, _c in entries)
+    body = "\n      * ".join(f"(@[builtin({role})] ({name} :: {classifier}))" for name, role, classifier in entries)
+    first = entries[0][0]
+    return (
+        "begin\n  let CType = @(intrinsic(ctype)) in\n  let Thk = @(intrinsic(thk)) in\n  let Int64 = @(intrinsic(i64)) in\n"
+        f"  param (\n    ({names}) :\n    exists @[builtin(os)] (SystemOS : CType) .\n        {body}\n  ) in\n"
+        f"  ! {first} 0\nend\n"
+    )
 
 
 def write_block_corpus(tree, seed, count):
@@ -397,5 +434,11 @@ def write_block_corpus(tree, seed, count):
         rel = os.path.join("lib", "zygen", f"block{index}.zy")
         with open(os.path.join(tree, rel), "w") as handle:
             handle.write(program.render(order))
+        written.append(rel)
+    for index in range(max(4, count // 4)):
+        rng = Rng(mix(seed, ENGINE, 3000 + index))
+        rel = os.path.join("lib", "zygen", f"badsig{index}.zy")
+        with open(os.path.join(tree, rel), "w") as handle:
+            handle.write(gen_bad_builtin_signature(rng))
         written.append(rel)
     return written
